@@ -130,6 +130,8 @@ impl PageLockEntry {
     }
 
     fn acquire(&self) {
+        #[cfg(kahflane_turdb_verif)]
+        crate::verif_hooks::yield_point("pagelock.entry.acquire");
         self.ref_count.fetch_add(1, Ordering::AcqRel);
     }
 
